@@ -60,8 +60,12 @@ pub fn gen_fine_history(rng: &mut Rng, cfg: &Config, o: &FineOpts) -> (Vec<Vec<O
     let st = Steer::new(cfg);
     let mut threads: Vec<Vec<Op>> = vec![vec![]; n_threads];
     let share_original = rng.chance(o.shared_original_pct, 100);
+    // sometimes nobody ever clones: all threads call through one shared `&Unimock`
+    let no_clones = share_original && rng.chance(1, 2);
     for t in 1..n_threads {
-        threads[0].push(Op::Clone { src: 0, dst: t as u8 });
+        if !no_clones {
+            threads[0].push(Op::Clone { src: 0, dst: t as u8 });
+        }
     }
     let prelude = threads[0].len();
     let mut methods = st.flat.methods.clone();
@@ -89,14 +93,18 @@ pub fn gen_fine_history(rng: &mut Rng, cfg: &Config, o: &FineOpts) -> (Vec<Vec<O
                 (m, rng.below(4) as u8, if m.info().two_args { rng.below(4) as u8 } else { 0 })
             };
             let slot = if t == 0 || share_original { 0 } else { t as u8 };
-            threads[t].push(Op::Call { slot, m, x, y, catch: true, fault: None, keep: false });
+            // now and then the call comes from a destructor running while the thread unwinds
+            let fault = if o.mock_panics_wanted && m.info().recv == Recv::Ref && rng.chance(1, 12) { Some(Fault::WhileUnwinding) } else { None };
+            threads[t].push(Op::Call { slot, m, x, y, catch: true, fault, keep: false });
         }
     }
     if n_threads > 1 {
         threads[0].push(Op::Wait { mask: 0xfe });
     }
     for t in 1..n_threads {
-        threads[0].push(Op::Drop { slot: t as u8 });
+        if !no_clones {
+            threads[0].push(Op::Drop { slot: t as u8 });
+        }
     }
     threads[0].push(Op::Verify { slot: 0 });
     (threads, prelude)
